@@ -1,14 +1,15 @@
 CONSTANTS
   Fam = "mac"
-  NM = 3
-  KindSet = {"obj", "f0", "f1"}
-  MaxBody = 3
+  NM = 2
+  KindSet = {"obj", "f1", "f2", "fv", "f1v"}
+  MaxBody = 5
   MaxInv = 6
-  BodyAlpha = {"x", "f", "g", "fg", "(", ")", "a", "##"}
-  InvAlpha = {"f", "g", "fg", "a", "(", ")"}
+  BodyAlpha = {"x", "y", "V", "#x", "##", "f", "ff", "a", "1"}
+  InvAlpha = {"f", "ff", "a", "1", "(", ")", ","}
   VarWs = FALSE
   InvHead = TRUE
-  NameScheme = 1
+  InvBal = TRUE
+  NameScheme = 2
   MaxLines = 1
   MaxNest = 1
   CondSet = {"0"}
